@@ -210,10 +210,17 @@ def strategy_gen(draw):
     objs = [objs[i] for i in order]
     x = [draw(dyv()) for _ in range(n)]
     blo, bhi = [], []
+    # one case in three has a finite box in every variable (possibly with fixed ones), so that scale=True
+    # takes effect: the internal form is then stated in scaled variables and must still be faithful;
+    # the boxes are not centred at x and their half-widths are not 1
+    allbox = draw(st.integers(0, 2)) == 0
     for i in range(n):
-        pat = draw(st.sampled_from(["free", "free", "two", "fixed", "lower", "nan"]))
+        pat = draw(st.sampled_from(["two", "two", "two", "fixed"] if allbox else ["free", "free", "two", "fixed", "lower", "nan"]))
         if pat == "free":
             blo.append(-math.inf); bhi.append(math.inf)
+        elif pat == "two" and allbox:
+            blo.append(x[i] - draw(st.sampled_from([0.0, 0.25, 0.5, 1.0, 1.5, 3.0])))
+            bhi.append(x[i] + draw(st.sampled_from([0.25, 0.5, 1.0, 2.0, 5.0])))
         elif pat == "two":
             blo.append(x[i] - 1.0); bhi.append(x[i] + 1.0)
         elif pat == "fixed":
@@ -239,6 +246,7 @@ def run_gen(spec, out):
     n = spec["n"]
     x = np.array(spec["x"], float)
     cons, want = [], 0.0
+    stated = []
     tol = 0.0
     exp_ub = exp_eq = 0
     for o in spec["objs"]:
@@ -260,6 +268,7 @@ def run_gen(spec, out):
                 cons.append(NonlinearConstraint(lambda z, v=v: v.copy(), l_arg, u_arg))
             vals = v
         want = max(want, interval_violation(vals, lo, hi))
+        stated.append((A0 if o["kind"] == "lin" else None, vals, lo, hi))
         a, b = expected_counts(lo, hi)
         exp_ub += a
         exp_eq += b
@@ -281,17 +290,28 @@ def run_gen(spec, out):
         warnings.simplefilter("ignore")
         try:
             r = minimize(lambda z: 0.0, x, bounds=Bounds(np.array(spec["blo"], float), np.array(spec["bhi"], float)),
-                         constraints=cons, options={"maxfev": 1, "scale": bool(spec["scale"])})
+                         constraints=cons, options={"maxfev": 1, "scale": bool(spec["scale"]), "radius_init": 2.0 ** -7})
         except Exception as exc:
             out.label("crash:" + type(exc).__name__)
             return
-    if np.array_equal(r.x, x):
+    if not np.array_equal(r.x, x) and np.all(np.isfinite(r.x)):
+        # the starting point was moved (onto / away from a bound): the reported value belongs to r.x
+        xr = np.asarray(r.x, float)
+        want = 0.0
+        for A0, vals, lo, hi in stated:
+            if A0 is not None:
+                vals = A0 @ xr
+                tol = max(tol, float(np.max(np.abs(A0) @ np.abs(xr) + 1.0)))
+            want = max(want, interval_violation(vals, lo, hi))
+        out.label("x0-moved")
+    if np.all(np.isfinite(r.x)):
         t2 = 256 * EPS * (tol * 4 + abs(want) + 1.0)
         if not (abs(float(r.maxcv) - want) <= t2):
             out.fail("C17.problem", "minimize reports maxcv=%r at x0 but the interval violation is %r (scale=%s)"
                      % (float(r.maxcv), want, spec["scale"]))
-    else:
-        out.label("x0-moved")
+        blo_, bhi_ = np.array(spec["blo"], float), np.array(spec["bhi"], float)
+        if spec["scale"] and bool(np.all(np.isfinite(blo_) & np.isfinite(bhi_))) and bool(np.any(blo_ < bhi_)):
+            out.label("scale-effective")
     out.nontrivial = len(spec["objs"]) > 1 or any(
         len({(math.isfinite(l), math.isfinite(u)) for l, u in zip(o["lb"], o["ub"])}) > 1 for o in spec["objs"])
     out.label("gen", "objs=%d" % len(spec["objs"]))
